@@ -159,7 +159,24 @@ def one_iteration_of_nested_while(fn, cond_pred, havoc, restrict_for=None):
                 if isinstance(sub, (ast.Break, ast.Continue)):
                     raise CutError(f"{fn.__qualname__}: break/continue inside the loop to cut")
             found.append(node)
-            hv = [ast.parse(f"{nm} = __havoc__({nm!r}, {nm}, dict(locals()))").body[0] for nm in havoc]
+            names = havoc
+            if havoc == "auto":
+                # carried variables: assigned in the loop body AND (read by the loop condition OR assigned before in the function)
+                stored = []
+                for st in node.body:
+                    for sub in ast.walk(st):
+                        if isinstance(sub, ast.Name) and isinstance(sub.ctx, ast.Store) and sub.id not in stored:
+                            stored.append(sub.id)
+                        if isinstance(sub, ast.Subscript) and isinstance(sub.ctx, ast.Store):
+                            base = sub.value
+                            while isinstance(base, ast.Subscript):
+                                base = base.value
+                            if isinstance(base, ast.Name) and base.id not in stored:
+                                stored.append(base.id)
+                in_test = {n.id for n in ast.walk(node.test) if isinstance(n, ast.Name)}
+                names = [nm for nm in stored if nm in in_test or nm in assigned_before(node)]
+            auto_names.extend(names)
+            hv = [ast.parse(f"{nm} = __havoc__({nm!r}, {nm}, dict(locals()))").body[0] for nm in names]
             return hv + [ast.If(test=node.test, body=node.body, orelse=[])]
 
         def visit_For(self, node):
@@ -168,9 +185,19 @@ def one_iteration_of_nested_while(fn, cond_pred, havoc, restrict_for=None):
             # only a loop that ENCLOSES the cut while-loop is restricted
             if restrict_for is not None and len(found) > before and restrict_for(ast.unparse(node.iter)):
                 restricted.append(ast.unparse(node.iter))
+                for_targets.append(ast.unparse(node.target))
                 node.iter = ast.Call(func=ast.Name(id="__restrict__", ctx=ast.Load()), args=[node.iter], keywords=[])
             return node
-    restricted = []
+    restricted, for_targets, auto_names = [], [], []
+    orig = ast.parse(src).body[0]
+
+    def assigned_before(loop):
+        """names stored anywhere in the function before the line of the loop (parameters included)"""
+        out = {a.arg for a in orig.args.args}
+        for sub in ast.walk(orig):
+            if isinstance(sub, ast.Name) and isinstance(sub.ctx, ast.Store) and sub.lineno < loop.lineno:
+                out.add(sub.id)
+        return out
     fnode = T().visit(fnode)
     if len(found) != 1:
         raise CutError(f"{fn.__qualname__}: {len(found)} while-loops match the wanted condition")
@@ -179,7 +206,8 @@ def one_iteration_of_nested_while(fn, cond_pred, havoc, restrict_for=None):
     ast.fix_missing_locations(tree)
     code = compile(tree, filename=f"<loop-cut of {fn.__qualname__}>", mode="exec")
     loop = found[0]
-    return code, dict(function=fn.__qualname__, loop_line=loop.lineno, condition=ast.unparse(loop.test), havocked=list(havoc),
+    return code, dict(function=fn.__qualname__, loop_line=loop.lineno, condition=ast.unparse(loop.test), havocked=list(auto_names),
+                      for_targets=for_targets,
                       dropped=["iterations 2.. of the loop (one arbitrary iteration from an arbitrary invariant state kept)"] +
                               [f"iterations of `for .. in {r}` other than the one selected by the caller" for r in restricted],
                       restricted=restricted, body=[ast.unparse(s)[:120] for s in loop.body])
